@@ -32,7 +32,7 @@ ASSUMPTIONS = [
 
 def units(tier):
     us = [("HIST", i, 3 if tier == "quick" else 4, j) for i in range(len(INITIAL)) for j in range(N_OPS_SHARD)]
-    us += [("API", tier, i) for i in range(8)]
+    us += [("API", tier, i) for i in range(8)] + [("OPTS", i) for i in range(16)]
     us += [("S6", i) for i in range(16)]
     us += S.doc_units(["S1", "S1n", "S2", "S3", "S4", "S5", "ROOT"], tier, triples=False)
     return us
@@ -263,6 +263,8 @@ def run_unit(unit):
         return res
     if unit[0] == "API":
         return run_api(res, unit[1], unit[2])
+    if unit[0] == "OPTS":
+        return run_opts(res, unit[1])
     if unit[0] == "S6":
         for f in corpus.files()[unit[1]::16]:
             text = corpus.read(f)
@@ -296,6 +298,45 @@ def run_unit(unit):
         if n == 1:
             R.add_sample(res, {"label": label, "text": D.render(tree)[0]}, 1)
     R.add_sub(res, unit[0], res["evals"])
+    return res
+
+
+def run_opts(res, shard):
+    """the same reading under the corner formatter option sets (line-break newlinechar): what the text says may not depend on the options"""
+    from .. import optsweep as O
+
+    docs = [(l, t) for l, t in O.documents("quick") if l.startswith(("RICH ", "S1", "S4", "NUM", "EXPR"))]
+    sets = [o for o in O.corner_sets() if "\n" in o["newlinechar"]]
+    for label, text in docs[shard::16]:
+        try:
+            d0 = impl.loads(text)
+        except Exception:
+            continue
+        strs = list(strings_of(d0))
+        for o in sets:
+            if any(o["quote"] in s_ for s_ in strs) and not label.startswith("EXPR"):
+                continue
+            d = copy.deepcopy(d0)
+            res["evals"] += 1
+            try:
+                out = impl.dumps(d, **o)
+                msg = LX.compare(d, out, o["newlinechar"])
+            except RD.ReadError as e:
+                msg = "output unreadable: %s" % e
+            except LX.Refuse:
+                continue
+            except Exception as e:
+                msg = "dumps raises %s" % impl.exc_name(e)
+            if msg is None:
+                R.add_outcome(res, "says_the_same")
+                res["states"].add(R.h64(out))
+            else:
+                R.add_outcome(res, "lexical")
+                from .. import optsweep as O2
+
+                R.add_violation(res, "lexical_opts|%s|%s" % (msg.split(":")[0][:60], label), "under options %s the text does not say what the dictionary says: %s" % (O2.oname(o), msg),
+                                {"text": text, "options": o}, None)
+    R.add_sub(res, "documents x corner option sets read back", res["evals"])
     return res
 
 
@@ -348,6 +389,11 @@ def describe(tier):
 def replay(case):
     import mappyfile
 
+    if "options" in case:
+        d = mappyfile.loads(case["text"], expand_includes=False)
+        out = mappyfile.dumps(d, **case["options"])
+        msg = LX.compare(d, out, case["options"]["newlinechar"])
+        return {"diff": msg, "written": out} if msg else None
     if "ops" in case:
         ops = dict(op_table())
         d = mappyfile.loads(case["initial"])
